@@ -1264,7 +1264,7 @@ pub fn gen_c17(r: &mut Rng, tier: Tier) -> Case {
     // somebody edits or deletes generated files by hand between two runs
     if r.chance(1, 5) && ops.len() >= 2 {
         let at = r.range(1, ops.len() as u64 - 1) as usize;
-        let what = *r.pick(&["tamper:delete", "tamper:garble", "tamper:truncate", "tamper:delete_all", "tamper:append", "tamper:prepend", "tamper:banner", "tamper:crlf", "tamper:midline", "tamper:strip_nl", "tamper:extra_nl", "tamper:trail_ws", "tamper:case", "tamper:swap", "tamper:indent"]);
+        let what = *r.pick(&["tamper:delete", "tamper:garble", "tamper:truncate", "tamper:delete_all", "tamper:append", "tamper:prepend", "tamper:banner", "tamper:crlf", "tamper:midline", "tamper:strip_nl", "tamper:extra_nl", "tamper:trail_ws", "tamper:case", "tamper:swap", "tamper:indent", "tamper:symlink", "tamper:readonly"]);
         let mut t = ops[at].clone();
         t.role = format!("{what}:{}", r.below(8));
         t.faults.clear();
@@ -1315,6 +1315,7 @@ pub fn gen_c17(r: &mut Rng, tier: Tier) -> Case {
 fn eval_c17(case: &Case, sc: &mut Scratch, res: &mut EvalResult) {
     let out = sc.out();
     sc.clear_dir(&out);
+    let _ = std::fs::remove_dir_all(out.parent().unwrap_or(&out).join("lnk_targets"));
     apply_preseed(case, &out);
     let mut after_fault = false;
     // inputs of the last successful, undisturbed run (for the plain idempotence clause)
@@ -1418,6 +1419,25 @@ fn eval_c17(case: &Case, sc: &mut Scratch, res: &mut EvalResult) {
                             b[i] ^= 0x20;
                         }
                         let _ = std::fs::write(&p, b);
+                    }
+                    "symlink" => {
+                        // the generated file lives elsewhere and the output path is a link to it
+                        // (a checkout managed by a link farm): same content through the same path
+                        let tdir = out.parent().unwrap_or(&out).join("lnk_targets");
+                        let _ = std::fs::create_dir_all(&tdir);
+                        let t = tdir.join(format!("t{idx}_{n}"));
+                        if std::fs::symlink_metadata(&p).map(|m| m.file_type().is_file()).unwrap_or(false) && std::fs::rename(&p, &t).is_ok() {
+                            let _ = std::os::unix::fs::symlink(&t, &p);
+                        }
+                    }
+                    "readonly" => {
+                        // the write permission bits are cleared (a version-control system that
+                        // locks files). Only where that does not stop the tool from writing
+                        // (uid 0): otherwise a failing run would be the file system's doing.
+                        if unsafe { libc::geteuid() } == 0 {
+                            use std::os::unix::fs::PermissionsExt;
+                            let _ = std::fs::set_permissions(&p, std::fs::Permissions::from_mode(0o444));
+                        }
                     }
                     "swap" => {
                         // two generated files exchanged (same sizes in total, each intact)
